@@ -53,13 +53,18 @@ structure Hdr where
   linkname : Bytes := []
   uname : Bytes := []
   gname : Bytes := []
+  /-- devmajor/devminor written as octal zero (templateV7Plus: every ordinary member) or left NUL
+      (writeRawFile: the extension-record member that precedes a PAX member) -/
+  dev : Bool := true
 deriving DecidableEq, Repr
+
+def devField (h : Hdr) : Bytes := if h.dev then octField 8 0 else zeros 8
 
 /-- the sixteen fields of a header block, the checksum field given -/
 def fields (h : Hdr) (chk : Bytes) : List Bytes :=
   [ strField 100 h.name, octField 8 h.mode, octField 8 h.uid, octField 8 h.gid, octField 12 h.size, octField 12 h.mtime,
     chk, [h.typeflag], strField 100 h.linkname, h.flavor.magic, h.flavor.version, strField 32 h.uname, strField 32 h.gname,
-    octField 8 0, octField 8 0, zeros 167 ]
+    devField h, devField h, zeros 167 ]
 
 def byteSum (b : Bytes) : Nat := (b.map (·.toNat)).sum
 
@@ -113,7 +118,8 @@ def readHeader (blk : Bytes) : Option Hdr :=
       else some { flavor := if slice blk 257 6 = Flavor.gnu.magic then .gnu else .ustar,
                   name := readStr (slice blk 0 100), mode, uid, gid, size, mtime,
                   typeflag := (slice blk 156 1).headD 0, linkname := readStr (slice blk 157 100),
-                  uname := readStr (slice blk 265 32), gname := readStr (slice blk 297 32) }
+                  uname := readStr (slice blk 265 32), gname := readStr (slice blk 297 32),
+                  dev := slice blk 329 8 != zeros 8 }
     | _, _, _, _, _, _ => none
 
 def isZeroBlock (b : Bytes) : Bool := b.all (· == 0)
